@@ -65,6 +65,11 @@ class Program:
                         self.closure_index.setdefault(key, name)
                 continue
             impl = self.src.impl_of(name) if '<impl at ' in name else None
+            if impl is None and '<impl at ' in name and method == 'from' and segs[-2].startswith('<impl at'):
+                # thiserror's #[from]: the span is the attribute; recover the impl from the signature
+                f.parse()
+                if len(f.arg_tys) == 1 and f.ret_ty:
+                    impl = (last_seg(f.ret_ty), 'From', 'From<%s>' % f.arg_tys[0])
             if impl and segs[-2].startswith('<impl at'):
                 ty, trait, trait_text = impl
                 self.fn_index.setdefault((ty, trait, method), []).append((name, trait_text))
@@ -171,6 +176,9 @@ class Explorer:
                 outcome = ('budget', str(b))
                 self.inconclusive.append('step budget: %s' % b)
             except Unsupported as u:
+                import os
+                if os.environ.get('VERIF_DEBUG') == '2':
+                    raise
                 outcome = ('unsupported', str(u))
                 self.inconclusive.append('unsupported: %s' % u)
             except (AttributeError, TypeError, IndexError, KeyError, ValueError, AssertionError, z3.Z3Exception) as e:
@@ -911,6 +919,8 @@ class Executor:
             else:
                 tytxt, trtxt = inner.strip(), None
             ty = last_seg(tytxt)
+            if re.match(r"^(&(mut )?)*(std|core|alloc)::", tytxt):
+                ty = '<std>' + ty
             trait = last_seg(trtxt) if trtxt else None
             if tytxt.startswith('{closure@') or tytxt.startswith('{async') or tytxt.startswith('{coroutine'):
                 if trait in ('Fn', 'FnMut', 'FnOnce'):
@@ -934,7 +944,7 @@ class Executor:
                 gi = _generic_lasts(tt) if tt else ()
                 gi = tuple(self_ty if g == 'Self' else g for g in gi)
                 if gi == wl:
-                    return True
+                    return _generic_paths_compatible(tt, want)
                 if wl == () and gi in ((), (self_ty,)):
                     return True
                 if gi == () and wl == (self_ty,):
@@ -946,6 +956,14 @@ class Executor:
                 return None
             if len(cands) == 1:
                 return cands[0][0]
+            # same-named types in different modules: the impl lives in the module of the type
+            tmod = '::'.join(P.strip_generics(re.sub(r"^&(?:'\w+ )?(?:mut )?", '', tytxt)).split('::')[:-1])
+            if tmod:
+                inmod = [(n, tt) for n, tt in cands if n.startswith(tmod + '::')]
+                if len(inmod) == 1:
+                    return inmod[0][0]
+                if inmod:
+                    cands = inmod
             best = [n for n, tt in cands if tt and _generic_lasts(tt) == wl]
             if len(best) == 1:
                 return best[0]
@@ -958,7 +976,7 @@ class Executor:
         base = P.strip_generics(c)
         segs = base.split('::')
         method = segs[-1]
-        if len(segs) >= 2:
+        if len(segs) >= 2 and segs[0] not in ('std', 'core', 'alloc'):
             ty = segs[-2]
             cands = prog.fn_index.get((ty, None, method))
             if cands:
@@ -972,7 +990,7 @@ class Executor:
                     # inherent methods of same-named types: pick by receiver
                     pass
                 raise Unsupported('ambiguous inherent %s: %r' % (c, [n for n, _ in cands]))
-        cands = prog.fn_index.get((None, None, method))
+        cands = prog.fn_index.get((None, None, method)) if segs[0] not in ('std', 'core', 'alloc') else None
         if cands:
             if len(segs) == 1:
                 exact = [n for n, _ in cands if n == method or n.endswith('::' + method)]
@@ -1062,6 +1080,25 @@ def _generic_lasts(t):
     if not m:
         return ()
     return tuple(last_seg(x) for x in P.split_top(m.group(1)))
+
+
+def _generic_paths_compatible(a, b):
+    """Same-named generic arguments must not come from visibly different modules (jsonio::Error vs transport::error::Error)."""
+    ma, mb = re.search(r'<(.*)>', a or ''), re.search(r'<(.*)>', b or '')
+    if not ma or not mb:
+        return True
+    xs, ys = P.split_top(ma.group(1)), P.split_top(mb.group(1))
+    for x, y in zip(xs, ys):
+        x = P.strip_generics(re.sub(r"^&(?:'\w+ )?(?:mut )?", '', x.strip()))
+        y = P.strip_generics(re.sub(r"^&(?:'\w+ )?(?:mut )?", '', y.strip()))
+        sx, sy = x.split('::'), y.split('::')
+        if len(sx) > 1 and len(sy) > 1:
+            n = min(len(sx), len(sy))
+            if sx[-n:] != sy[-n:]:
+                # allow re-export style differences only when one path is a strict suffix of the other
+                if not (sx[-1] == sy[-1] and (sx[0] == sy[0] or sx[-2] == sy[-2])):
+                    return False
+    return True
 
 
 def clean_callee(c):
